@@ -88,6 +88,22 @@ fn main() {
         eprintln!("unknown property {}", id);
         std::process::exit(2);
     }
+    // committed fuzz corpus of the property's libFuzzer targets, re-evaluated in-process
+    props::fuzzers::replay_corpus(&ctx);
+    // the libFuzzer campaign (tools/fuzz_tier.py, thorough tier) runs first and leaves a summary
+    let fz = format!("/verif/target/fuzz-{}.json", id);
+    let mut fz_viol = 0;
+    if std::path::Path::new(&fz).exists() {
+        fz_viol = ctx.merge_side(&fz, "fuzz:").unwrap_or(0);
+        if let Ok(t) = std::fs::read_to_string(&fz) {
+            if let Ok(v) = serde_json::from_str::<serde_json::Value>(&t) {
+                ctx.extra("fuzz_targets", v["targets"].clone());
+            }
+        }
+    }
+    if fz_viol > 0 {
+        ctx.side_violation(fz_viol as u64);
+    }
     // the tokio twin (crate hvt) runs first and leaves a summary that becomes part of this property's evidence
     let side = format!("/verif/target/tokio-{}.json", id);
     let mut side_viol = 0;
